@@ -324,10 +324,16 @@ class Prototype:
     def __iter__(self):
         """Yield instantiated components."""
         return (self.init_methods.get(
-                comp_t,
-                getattr(self, f'{self.init_prefix}{comp_t.__name__}',
-                        self._default_init))(comp_t)
+                comp_t, self._init_method(comp_t))(comp_t)
                 for comp_t in self.component_types)
+
+    def _init_method(self, component_type: type[C]) -> Callable[[type[C]], C]:
+        """Get the standard init method for the given type, if defined."""
+        method = getattr(self, f'{self.init_prefix}{component_type.__name__}',
+                         None)
+        # The name may fall on an attribute which is not a method (e.g.
+        # init_methods itself, for a type named "methods")
+        return method if callable(method) else self._default_init
 
 
 class OnUpdateProcessor(Processor):
